@@ -257,6 +257,22 @@ fn run_histories(c: usize, r: usize, ctx: &mut Ctx) {
     }
 }
 
+/// Owned arrays that survived a caught panic in caller code (or a fault-free operation) must round-trip too.
+fn run_survivors(c: usize, r: usize, ctx: &mut Ctx) {
+    use crate::engine::ledger::Tracked;
+    super::c11::for_each_survivor(c, r, ctx, &mut |t: TooDee<Tracked>, what: &str, cs: &mut Case| {
+        let (nc, nr) = t.size();
+        if nc.checked_mul(nr).map_or(true, |a| a > 64) || t.data().len() > 64 {
+            std::mem::forget(t);
+            return;
+        }
+        round_trips::<TooDee<Tracked>, Tracked>(&t, &t, cs, &format!("the array {} (size {:?}, {} cells)", what, t.size(), t.data().len()));
+        if nc * nr != t.data().len() {
+            std::mem::forget(t);
+        }
+    });
+}
+
 fn run_views(pc: usize, pr: usize, ctx: &mut Ctx) {
     for (s, e) in windows(pc, pr) {
         ctx.case(
@@ -322,6 +338,9 @@ impl Prop for C18P {
             if c <= n && r <= n {
                 v.push(format!("views {}x{}", c, r));
             }
+            if c > 0 && c <= 3 && r <= 3 {
+                v.push(format!("survivors {}x{}", c, r));
+            }
         }
         v
     }
@@ -331,6 +350,8 @@ impl Prop for C18P {
         let (c, r): (usize, usize) = (c.parse().unwrap(), r.parse().unwrap());
         if what == "views" {
             run_views(c, r, ctx);
+        } else if what == "survivors" {
+            run_survivors(c, r, ctx);
         } else {
             run_type::<u32>(c, r, ctx);
             run_small_u32(c, r, ctx);
@@ -347,6 +368,7 @@ impl Prop for C18P {
     }
     fn rule(&self) -> String {
         "every shape (0..=N)^2 incl. (0,0), 1xN, Nx1 (plus one long row and one long column); element types u32 (all assignments of {0,1,MAX} for up to 4 cells, rotating samples above), i64 (MIN/MAX/beyond 2^53), String (empty, quotes, backslash, control characters, non-ASCII, NUL, strings equal to field names), Option<u8>, Vec<u8>, [u8;2], (i8,bool); exact and spare capacity; arrays built by histories (grown by rows / columns, shrunk, emptied and regrown, swap_dimensions, and the array left by a caught panic in an insertion's iterator or by a leaked drain); \
+         additionally every array of owning elements (shapes up to 3x3) that survives an operation in which the k-th call into caller code (iterator, Clone, Drop, comparator, key function) panicked and was caught - every operation instance and every k; \
          ALL 4 x 4 combinations of {to_string,to_vec,to_writer,to_value} with {from_str,from_slice,from_reader,from_value}: the result must be Ok and equal to the original (dimensions, cells, ==). \
          Views: every window of every parent up to NxN through TooDeeView and TooDeeViewMut (and a nested view): the deserialised array must equal TooDee::from(view). \
          A case is (element type, shape, filling) or (parent, window), each covering the 16 transport pairs; distinct by the tuple; all are non-trivial."
